@@ -72,6 +72,25 @@ def main():
                 rec_ctx.drive(rec_b, sib, b, fams, rng, False, nsub=3, nmulti=2, label_variant=lv)
                 rec_ctx.drive(rec, table, b, fams, rng, False, nsub=4, nmulti=2, label_variant=lv, construct=False)
                 del rec_b
+            if b % 3 == 2 and table.n * table.m <= 80 and hasattr(rec, 'ctx') \
+                    and a.prop not in ('C15', 'C01', 'C04', 'C16') and not table.tag.startswith('colossal'):
+                # the same checked calls on a lattice object that went through pickle / copy.copy / copy.deepcopy
+                # (every statement about "the lattice" holds for a restored one as well)
+                import copy
+                import pickle
+                try:
+                    lat = rec.ctx.lattice
+                    lat2 = (pickle.loads(pickle.dumps(lat, protocol=2 + (b // 3) % 4)), copy.copy(lat),
+                            copy.deepcopy(lat))[(b // 3) % 3]
+                    real = rec.ctx
+                    rec.ctx = rec_ctx.LatShim(real, lat2)
+                    rec._members = None
+                    rec_ctx.drive(rec, table, b, fams, rng, False, nsub=3, nmulti=2, label_variant=lv, construct=False)
+                    rec.ctx = real
+                    rec._members = None
+                except Exception as exc:
+                    rec.ev('crash', prop=a.prop, call='restored-lattice', args=str(b), exc=type(exc).__name__,
+                           msg=str(exc)[:300])
             stats['behaviours'] += 1
             stats['exhaustive_tables'] += (table.tag[:2] == 'ex' and table.tag[2:3].isdigit())
             key = (table.n, table.m, tuple(map(tuple, table.rows)))
